@@ -2,6 +2,7 @@ import Driver.Util
 import Driver.C01
 import Driver.C02
 import Driver.C04
+import Driver.C05
 import Driver.C10
 /-
   Line-protocol driver: one operation per input line, one canonical output line per operation.
@@ -14,6 +15,7 @@ structure DState where
   rd : RdState := {}
   wire : Amqp.Wire.S := {}
   alloc : Amqp.Alloc.A := { max := 0 }
+  rpc : Amqp.Rpc.S := {}
 
 def handlers : List Handler := [
   Driver.C04.handle
@@ -29,6 +31,9 @@ def step (st : DState) (line : String) : DState × String :=
   | none =>
   match Driver.C10.stepCmd st.alloc args with
   | some (al, o) => ({ st with alloc := al }, o)
+  | none =>
+  match Driver.C05.stepCmd st.rpc args with
+  | some (r, o) => ({ st with rpc := r }, o)
   | none =>
     match handlers.findSome? (fun h => h args) with
     | some o => (st, o)
